@@ -50,6 +50,8 @@ class P(vlib.Prop):
                       "zz_verif_c13_mismatch_test.go": "C13/mismatch_test.go",
                       "zz_verif_c13_schema_common_test.go": "C13/schema_common_test.go"},
                      "^TestVerifC13Decode$", "main"),
+        vlib.Harness("notify", "service", "./extensions/", {"zz_verif_c13_test.go": "C13/notify_test.go"},
+                     "^TestVerifC13Notify$", "extensions"),
     ]
     rule = ("walk: random synthetic Go values (struct/pointer/interface/slice/array/map with string, Stringer, int and "
             "struct keys, value- and pointer-receiver validators, unexported fields, every mapstructure tag shape) through "
@@ -61,7 +63,10 @@ class P(vlib.Prop):
             "struct level of every built-in component, the service section and the top level (exhaustive), (2) random "
             "multi-insertions, (3) accepted skeletons, (4) random subsets of plain leaves of every component written with "
             "random valid values and read back from the typed struct and the effective configuration. "
-            "A case is non-trivial when an error is reported / a key is written; distinct = distinct case terms.")
+            "Instances are unnamed or named (type/name) and always have a sibling instance of the same type; kind-mismatch "
+            "writes; reloads of the effective configuration. notify: Extensions.NotifyConfig with 1-4 extensions whose "
+            "ConfigWatchers merge changes into the Conf they are handed. "
+            "A case is non-trivial when an error is reported / a key is written / two watchers are notified; distinct = distinct case terms.")
     trusted_base = [
         "Coq 8.16.1 kernel + vm_compute (coqc); no axioms (Print Assumptions: closed under the global context)",
         "translator T3 (harness/C13/schema_*_test.go): reflect over the config types of components() in the current tree -> Generated/C13CfgSchema.v",
